@@ -15,7 +15,7 @@
 Per module: exhaustive TLC (invariants + step properties), LTS tours on the real objects (model -> code), recorded
 random histories validated by TLC (code -> model), negative controls (Variant constants) that TLC must refute.
 
-The three subsystems are independent, so their units run side by side (ParUnit: one thread per subsystem, the units of a
+The three subsystems are independent, so their units run side by side (ParUnit: a few threads, each with the units of one
 subsystem one after the other).  `--only <name>`, `--replay` and X3_SEQ=1 use the plain sequential list.
 """
 import copy
@@ -99,10 +99,10 @@ class ParUnit(Unit):
 
 
 def logger_units():
-    w = dict(walks=(100, 25), thorough_walks=(2000, 40))
+    w = dict(walks=(60, 25), thorough_walks=(2000, 40))
     return [
         # exhaustive: trees of 3 loggers + 1 hook (capture / EmptyLogger); replay: trees of 3 loggers, levels, child shutdown
-        X3Unit("ext3", "Logger", traces=(80, 60), thorough_traces=(800, 100), **w),
+        X3Unit("ext3", "Logger", traces=(60, 50), thorough_traces=(800, 100), **w),
         # replay: 2 loggers, 2 OnLogLevelActive registrations (capture / EmptyLogger)
         X3Unit("ext3", "Logger", name="Logger:hooks", lts_kind="ltsH", do_mc=False, do_trace=False, **w),
         # replay: the default text handler (asynchronous writer, column widths, root shutdown), every logging entry point
@@ -143,7 +143,7 @@ def notifier_units():
 
 def shutdown_units():
     return [
-        X3Unit("ext3", "Shutdown", traces=(40, 12), thorough_traces=(300, 16), walks=(40, 8), thorough_walks=(400, 10)),
+        X3Unit("ext3", "Shutdown", traces=(30, 10), thorough_traces=(300, 16), walks=(20, 8), thorough_walks=(400, 10)),
         # negative controls: requests made before the handler waits are lost (the code before the X3 fix); a second request
         # is handled again; the daemon is stopped before the event hooks ran
         McUnit("ext3", "Shutdown", "ctl_lossy", name="ctl-sd-lossy", expect="NotLost", workers=1),
@@ -153,7 +153,8 @@ def shutdown_units():
 
 
 def units(ctx):
-    groups = [logger_units(), notifier_units(), shutdown_units()]
+    lg, vn, sd = logger_units(), notifier_units(), shutdown_units()
+    groups = [[lg[0]] + lg[3:5], lg[1:3] + lg[5:], vn[:3], sd[:1], vn[3:] + sd[1:]]
     if "--only" in sys.argv or "--replay" in sys.argv or os.environ.get("X3_SEQ"):
         return [u for g in groups for u in g]
     return [ParUnit(groups)]
